@@ -1,7 +1,6 @@
 // C18: nogoods as partial assignments over u32 positions; a total assignment is a spec function u32 -> bool
 use vstd::set_lib::*;
 
-pub open spec fn und(t: Term) -> bool { t.0 > 1 }
 pub proof fn lemma_subset_len_eq(a: Set<u32>, b: Set<u32>)
     requires a.subset_of(b), a.len() == b.len(),
     ensures a =~= b
